@@ -85,12 +85,12 @@ pub fn aname() -> BoxedStrategy<AName> {
 
 /// names whose wire length is 250..=255
 pub fn long_name() -> BoxedStrategy<AName> {
-    (250usize..=255, select(vec![b'a', b'q', 0xc3u8])).prop_map(|(target, c)| {
-        // wire = sum(len+1) + 1
+    (250usize..=255, select(vec![b'a', b'q', 0xc3u8]), select(vec![64usize, 64, 2, 3, 17])).prop_map(|(target, c, step)| {
+        // wire = sum(len+1) + 1; `step` = bytes per label incl. its length octet (2 = 127 one-byte labels)
         let mut remaining = target - 1;
         let mut labels = Vec::new();
         while remaining > 0 {
-            let take = remaining.min(64);
+            let take = remaining.min(step);
             if take < 2 {
                 // cannot make a label of length 0: extend the previous label if possible
                 break;
@@ -197,11 +197,20 @@ pub fn ardata() -> BoxedStrategy<ARData> {
     ardata_n(aname())
 }
 
+/// a type code without a typed variant (and not OPT): the fixed list, or any 16-bit value
+pub fn untyped_code() -> BoxedStrategy<u16> {
+    prop_oneof![
+        3 => select(UNKNOWN_CODES.to_vec()),
+        2 => any::<u16>().prop_map(|c| if is_typed(c) { c.wrapping_add(7000) } else { c }),
+    ]
+    .boxed()
+}
+
 pub fn ardata_n(names: BoxedStrategy<AName>) -> BoxedStrategy<ARData> {
     prop_oneof![
         20 => select(record_codes()).prop_flat_map(move |c| typed_n(c, names.clone())),
-        2 => (select(UNKNOWN_CODES.to_vec()), vec(any::<u8>(), 1..=40).prop_map(Bytes)).prop_map(|(code, data)| ARData::Unknown { code, data }),
-        1 => prop_oneof![select(record_codes()), select(UNKNOWN_CODES.to_vec())].prop_map(|code| ARData::Empty { code }),
+        2 => (untyped_code(), vec(any::<u8>(), 1..=40).prop_map(Bytes)).prop_map(|(code, data)| ARData::Unknown { code, data }),
+        1 => prop_oneof![select(record_codes()), untyped_code()].prop_map(|code| ARData::Empty { code }),
     ]
     .boxed()
 }
